@@ -1,6 +1,8 @@
 package rules
 
 import (
+	"golang.org/x/tools/go/packages"
+
 	"go/ast"
 	"go/token"
 	"strings"
@@ -62,4 +64,94 @@ func c16emptytype(c *core.Ctx) {
 			c.Bad(R, key, pos, what, "an empty schema (no root node) can be registered as a type: every later Check()/Example() of a schema that refers to it fails with the internal `Runtime Failure` code"+strings.Repeat("", 0))
 		}
 	}
+}
+
+// c16rebase: the offset a type is registered with agrees with the origin of its lexemes.
+func c16rebase(c *core.Ctx) {
+	const R = "C16.rebase"
+	c.Rule(R, "the type checker re-bases an error found inside a type: index + Type.Begin (checkType). Every schema model of this module is loaded by a scanner that starts at byte 0 of the registered file, so the lexemes of its nodes are positions in that file already; every registration (AddNamedType, AddUnnamedType, addType, Type literals) therefore passes the constant offset 0 or forwards its own offset parameter. An offset taken from a lexeme (lex.Begin()) is added to an index that contains it already: the reported index is doubled and leaves the text")
+	c.Floor(R, 5)
+	reg := map[string]int{
+		"(*notations/jschema/ischema.ISchema).AddNamedType":   3,
+		"(*notations/jschema/ischema.ISchema).AddUnnamedType": 2,
+		"(*notations/jschema/ischema.ISchema).addType":        3,
+	}
+	for _, cs := range c.P.Calls() {
+		idx, ok := reg[core.FullName(core.Callee(cs.Pkg, cs.Call))]
+		if !ok || len(cs.Call.Args) <= idx {
+			continue
+		}
+		arg := cs.Call.Args[idx]
+		fn := core.DeclName(cs.Pkg, cs.Decl)
+		key := fn + ":" + core.ExprStr(cs.Call.Fun)
+		pos := c.P.Pos(cs.Call.Pos())
+		what := core.ExprStr(cs.Call.Fun) + "(..., " + core.ExprStr(arg) + ") in " + fn
+		if cv := core.ConstOf(cs.Pkg, arg); cv != nil {
+			c.Check(cv.ExactString() == "0", R, key, pos, what, "a constant offset other than 0")
+			continue
+		}
+		// a forwarded parameter of the enclosing function
+		forwarded := false
+		if id, isID := arg.(*ast.Ident); isID && cs.Decl != nil {
+			for _, f := range cs.Decl.Type.Params.List {
+				for _, n := range f.Names {
+					if n.Name == id.Name {
+						forwarded = true
+					}
+				}
+			}
+		}
+		if forwarded {
+			c.OKd(R, key, pos, what, "forwards the offset parameter of "+fn)
+			continue
+		}
+		c.Bad(R, key, pos, what, "the offset is computed ("+core.ExprStr(arg)+"): the lexemes of the registered model are positions in the registered file already, checkType adds the offset to them a second time")
+	}
+	// Type composite literals
+	c.P.ForEachNode(func(pk *packages.Package, file *ast.File, stack []ast.Node, n ast.Node) bool {
+		cl, ok := n.(*ast.CompositeLit)
+		if !ok {
+			return true
+		}
+		t := core.TypeOf(pk, cl)
+		if t == nil || core.Rel(t.String()) != "notations/jschema/ischema.Type" {
+			return true
+		}
+		var begin ast.Expr
+		for i, e := range cl.Elts {
+			if kv, isKV := e.(*ast.KeyValueExpr); isKV {
+				if core.ExprStr(kv.Key) == "Begin" {
+					begin = kv.Value
+				}
+			} else if i == 2 {
+				begin = e
+			}
+		}
+		fd := c.P.EnclosingFuncDecl(pk, cl.Pos())
+		fn := "package " + core.Rel(pk.PkgPath)
+		if fd != nil {
+			fn = core.DeclName(pk, fd)
+		}
+		key := fn + ":Type{}"
+		pos := c.P.Pos(cl.Pos())
+		switch {
+		case begin == nil:
+			c.OKd(R, key, pos, "Type literal in "+fn, "no offset (zero value)")
+		case core.ConstOf(pk, begin) != nil:
+			c.Check(core.ConstOf(pk, begin).ExactString() == "0", R, key, pos, "Type literal in "+fn, "a constant offset other than 0")
+		default:
+			forwarded := false
+			if id, isID := begin.(*ast.Ident); isID && fd != nil {
+				for _, f := range fd.Type.Params.List {
+					for _, nm := range f.Names {
+						if nm.Name == id.Name {
+							forwarded = true
+						}
+					}
+				}
+			}
+			c.Check(forwarded, R, key, pos, "Type literal in "+fn+" with offset "+core.ExprStr(begin), "the offset is computed: it is added to lexeme positions that contain it already")
+		}
+		return true
+	})
 }
